@@ -6,10 +6,14 @@ package c15
 //
 // ops (one per line; the Lean driver Driver/C15.lean runs the same lines through the model):
 //   mint a n | params … | custom url r p q | custom url remove | submit proposer exp initial msg… | deposit id a n |
-//   cancel id a | vote id v opt | endblock dt tally…
+//   cancel id a | vote id voter opt:weight,… | delegate a val n | endblock dt staking…
+// voters are the tracked accounts (delegators of the validators, through the real MsgDelegate) and the validators'
+// operator accounts (model addresses 100+i); `staking…` are the numbers the real Tally reads in that block (total bonded,
+// bonded tokens and delegator shares of every bonded validator, every delegation of a possible voter) — the tally
+// arithmetic itself (per-option sums with the LegacyDec roundings, turnout, veto, threshold) is computed by the model.
 // observation after every op: result kind, gov module balance, every proposal (status, total deposit, deposit end,
-// voting start/end relative to the sequence start, expedited), deposits, both queues, tracked balances, four raw store
-// cells (effects of MsgUpdateStore proposals), the custom-parameter store.
+// voting start/end relative to the sequence start, expedited, final tally result), deposits, both queues, tracked
+// balances, four raw store cells (effects of MsgUpdateStore proposals), the custom-parameter store, the stored votes.
 //
 // monitors (property stated on real state, independent of the model): see `monitor`.
 
@@ -27,6 +31,7 @@ import (
 
 	"cosmossdk.io/collections"
 	sdkmath "cosmossdk.io/math"
+	"github.com/cosmos/gogoproto/proto"
 	abci "github.com/cometbft/cometbft/abci/types"
 	tenderminttypes "github.com/cometbft/cometbft/proto/tendermint/types"
 	cryptocodec "github.com/cosmos/cosmos-sdk/crypto/codec"
@@ -36,7 +41,9 @@ import (
 	distrtypes "github.com/cosmos/cosmos-sdk/x/distribution/types"
 	govtypes "github.com/cosmos/cosmos-sdk/x/gov/types"
 	v1 "github.com/cosmos/cosmos-sdk/x/gov/types/v1"
+	"github.com/cosmos/cosmos-sdk/x/gov/types/v1beta1"
 	slashingtypes "github.com/cosmos/cosmos-sdk/x/slashing/types"
+	stakingtypes "github.com/cosmos/cosmos-sdk/x/staking/types"
 
 	"github.com/functionx/fx-core/v8/testutil/helpers"
 	fxtypes "github.com/functionx/fx-core/v8/types"
@@ -76,8 +83,9 @@ func b01(b bool) string {
 // ------------------------------------------------------------------------------------------------- model-side message
 
 type pmsg struct {
-	url  string
-	wf   bool
+	url   string
+	inner string // for a MsgExecLegacyContent: the type url of the wrapped v1beta1 content
+	wf    bool
 	ok   bool
 	act  string // "noop" | "cas,k,o,n" | "credit,fx,other,to" | "setc,url,r,p,q" | "delc,url"
 	real sdk.Msg
@@ -88,7 +96,13 @@ type pmsg struct {
 	creditTo   int
 }
 
-func (m pmsg) word() string { return fmt.Sprintf("%s,%s,%s,%s", m.url, b01(m.wf), b01(m.ok), m.act) }
+func (m pmsg) word() string {
+	u := m.url
+	if m.inner != "" {
+		u += ">" + m.inner
+	}
+	return fmt.Sprintf("%s,%s,%s,%s", u, b01(m.wf), b01(m.ok), m.act)
+}
 
 // ------------------------------------------------------------------------------------------------- harness state
 
@@ -102,6 +116,9 @@ type H struct {
 	accs []sdk.AccAddress
 	idx  map[string]int
 	vals []sdk.AccAddress
+	// model address of every possible voter: tracked accounts 0.., validator operators 100+i
+	voter map[string]int
+	bond  sdkmath.Int // tokens of every validator at genesis
 	// shadow data used only by the monitors / generators
 	props   map[uint64][]pmsg
 	votes   map[uint64]map[int]bool
@@ -201,6 +218,8 @@ func kind(err error) string {
 		return "err:ended"
 	case errors.Is(err, govtypes.ErrInvalidProposal):
 		return "err:inactive"
+	case errors.Is(err, govtypes.ErrInvalidVote):
+		return "err:vote"
 	case errors.Is(err, collections.ErrNotFound):
 		return "err:notfound"
 	case errors.Is(err, sdkerrors.ErrInsufficientFunds):
@@ -220,6 +239,7 @@ type propObs struct {
 	dEnd, vStart, vEnd *time.Time
 	exp                bool
 	urls               []string
+	tally              string
 }
 
 type snap struct {
@@ -233,8 +253,12 @@ type snap struct {
 	params   v1.Params
 	inactive []string
 	active   []string
+	votes    map[uint64]int // stored votes per proposal
+	now      time.Time
 	line     string
 }
+
+var optWord = map[v1.VoteOption]string{v1.OptionYes: "yes", v1.OptionAbstain: "abstain", v1.OptionNo: "no", v1.OptionNoWithVeto: "veto"}
 
 var statusName = map[v1.ProposalStatus]string{
 	v1.StatusDepositPeriod: "deposit", v1.StatusVotingPeriod: "voting", v1.StatusPassed: "passed",
@@ -245,6 +269,7 @@ func (h *H) observe() snap {
 	ctx := h.ctx()
 	k := h.s.App.GovKeeper
 	sn := snap{props: map[uint64]propObs{}, deps: map[[2]uint64]sdkmath.Int{}, depsAll: map[uint64]sdk.Coins{}, custom: map[string]fxgovtypes.CustomParams{}}
+	sn.now = ctx.BlockTime()
 	govAddr := authtypes.NewModuleAddress(govtypes.ModuleName)
 	sn.govAll = h.s.App.BankKeeper.GetAllBalances(ctx, govAddr)
 	sn.params, _ = k.Params.Get(ctx)
@@ -255,8 +280,13 @@ func (h *H) observe() snap {
 		for _, m := range p.Messages {
 			po.urls = append(po.urls, m.TypeUrl)
 		}
+		tr := "0/0/0/0"
+		if r := p.FinalTallyResult; r != nil {
+			tr = r.YesCount + "/" + r.AbstainCount + "/" + r.NoCount + "/" + r.NoWithVetoCount
+		}
+		po.tally = tr
 		sn.props[id] = po
-		ps = append(ps, fmt.Sprintf("%d:%s:%s:%s:%s:%s:%s", id, po.status, po.total, h.rel(po.dEnd), h.rel(po.vStart), h.rel(po.vEnd), b01(po.exp)))
+		ps = append(ps, fmt.Sprintf("%d:%s:%s:%s:%s:%s:%s:%s", id, po.status, po.total, h.rel(po.dEnd), h.rel(po.vStart), h.rel(po.vEnd), b01(po.exp), tr))
 		return false, nil
 	})
 	type dline struct {
@@ -322,9 +352,39 @@ func (h *H) observe() snap {
 		return false, nil
 	})
 	sort.Strings(cus)
-	sn.line = fmt.Sprintf("gov=%s props=[%s] deps=[%s] inact=[%s] act=[%s] bal=[%s] kv=%s cust=[%s]",
+	type vline struct {
+		pid uint64
+		who int
+		s   string
+	}
+	var vs []vline
+	sn.votes = map[uint64]int{}
+	_ = k.Votes.Walk(ctx, nil, func(key collections.Pair[uint64, sdk.AccAddress], v v1.Vote) (bool, error) {
+		who, ok := h.voter[key.K2().String()]
+		if !ok {
+			who = 9999
+		}
+		var os []string
+		for _, o := range v.Options {
+			os = append(os, optWord[o.Option]+":"+scaled(o.Weight).String())
+		}
+		vs = append(vs, vline{key.K1(), who, fmt.Sprintf("%d/%d=%s", key.K1(), who, strings.Join(os, ","))})
+		sn.votes[key.K1()]++
+		return false, nil
+	})
+	sort.Slice(vs, func(i, j int) bool {
+		if vs[i].pid != vs[j].pid {
+			return vs[i].pid < vs[j].pid
+		}
+		return vs[i].who < vs[j].who
+	})
+	var vss []string
+	for _, v := range vs {
+		vss = append(vss, v.s)
+	}
+	sn.line = fmt.Sprintf("gov=%s props=[%s] deps=[%s] inact=[%s] act=[%s] bal=[%s] kv=%s cust=[%s] votes=[%s]",
 		sn.govAll.AmountOf(denom), strings.Join(ps, ";"), strings.Join(dss, ";"), strings.Join(sn.inactive, ";"),
-		strings.Join(sn.active, ";"), strings.Join(bs, ";"), strings.Join(cs, ","), strings.Join(cus, ";"))
+		strings.Join(sn.active, ";"), strings.Join(bs, ";"), strings.Join(cs, ","), strings.Join(cus, ";"), strings.Join(vss, ";"))
 	return sn
 }
 
@@ -386,12 +446,118 @@ func (h *H) specMin(sn snap, pid uint64, expedited bool) sdkmath.Int {
 	return def
 }
 
+// tallySpec: the per-option counts of the real Tally (whole tokens: TallyResult truncates), from a dry run on a discarded
+// cache context, with what the monitor needs to restate the decision with the quorum the PROPERTY asks for
 type tallySpec struct {
-	pid                      uint64
-	pct                      sdkmath.LegacyDec
-	bondedZero, naz, veto    bool
-	yesReg, yesExp, expedite bool
-	urls                     []string
+	pid                   uint64
+	yes, no, abst, veto   sdkmath.Int
+	bonded                sdkmath.Int
+	thr, expThr, vetoThr  sdkmath.LegacyDec
+	expedite              bool
+	urls                  []string
+	// dry run of the proposal's messages, in order, on a discarded cache of the state before the block: do they all
+	// succeed, and if not which one fails (error or panic)
+	execOK   bool
+	failIdx  int
+	failWhy  string
+	nMsgs    int
+	// what the votes and the stakes give, by the rule "every staked token of a bonded validator is counted once: for its
+	// delegator if the delegator voted, else for the validator's operator if that voted", in exact rationals
+	want [4]*big.Rat // yes, abstain, no, veto
+}
+
+func ratOfDec(d sdkmath.LegacyDec) *big.Rat { return new(big.Rat).SetFrac(d.BigInt(), dec18) }
+
+// specCounts: independent of x/gov/keeper/tally.go — reads the votes and the staking state only
+func (h *H) specCounts(ctx sdk.Context, pid uint64) [4]*big.Rat {
+	k := h.s.App.GovKeeper
+	sk := h.s.App.StakingKeeper
+	res := [4]*big.Rat{new(big.Rat), new(big.Rat), new(big.Rat), new(big.Rat)}
+	slot := map[v1.VoteOption]int{v1.OptionYes: 0, v1.OptionAbstain: 1, v1.OptionNo: 2, v1.OptionNoWithVeto: 3}
+	type val struct {
+		tokens, shares, voted *big.Rat
+	}
+	vals := map[string]*val{}
+	_ = sk.IterateBondedValidatorsByPower(ctx, func(_ int64, v stakingtypes.ValidatorI) bool {
+		vals[v.GetOperator()] = &val{new(big.Rat).SetInt(v.GetBondedTokens().BigInt()), ratOfDec(v.GetDelegatorShares()), new(big.Rat)}
+		return false
+	})
+	votes := map[string]v1.WeightedVoteOptions{}
+	rng := collections.NewPrefixedPairRange[uint64, sdk.AccAddress](pid)
+	_ = k.Votes.Walk(ctx, rng, func(key collections.Pair[uint64, sdk.AccAddress], v v1.Vote) (bool, error) {
+		votes[key.K2().String()] = v.Options
+		return false, nil
+	})
+	add := func(pw *big.Rat, opts v1.WeightedVoteOptions) {
+		for _, o := range opts {
+			w := ratOfDec(sdkmath.LegacyMustNewDecFromStr(o.Weight))
+			res[slot[o.Option]].Add(res[slot[o.Option]], new(big.Rat).Mul(pw, w))
+		}
+	}
+	for voter, opts := range votes {
+		addr, _ := sdk.AccAddressFromBech32(voter)
+		_ = sk.IterateDelegations(ctx, addr, func(_ int64, d stakingtypes.DelegationI) bool {
+			if v, ok := vals[d.GetValidatorAddr()]; ok && v.shares.Sign() > 0 {
+				sh := ratOfDec(d.GetShares())
+				v.voted.Add(v.voted, sh)
+				add(new(big.Rat).Quo(new(big.Rat).Mul(sh, v.tokens), v.shares), opts)
+			}
+			return false
+		})
+	}
+	for op, v := range vals {
+		bz, err := sk.ValidatorAddressCodec().StringToBytes(op)
+		if err != nil || v.shares.Sign() == 0 {
+			continue
+		}
+		if opts, ok := votes[sdk.AccAddress(bz).String()]; ok {
+			rest := new(big.Rat).Sub(v.shares, v.voted)
+			add(new(big.Rat).Quo(new(big.Rat).Mul(rest, v.tokens), v.shares), opts)
+		}
+	}
+	return res
+}
+
+// passes restates the decision on counts perturbed by d (the truncated fractions are unknown: the monitor only judges
+// when every perturbation agrees)
+func (ts tallySpec) passes(q sdkmath.LegacyDec, d [4]int64) bool {
+	yes, no, abst, veto := ts.yes.AddRaw(d[0]), ts.no.AddRaw(d[1]), ts.abst.AddRaw(d[2]), ts.veto.AddRaw(d[3])
+	total := yes.Add(no).Add(abst).Add(veto)
+	if ts.bonded.IsZero() {
+		return false
+	}
+	if sdkmath.LegacyNewDecFromInt(total).Quo(sdkmath.LegacyNewDecFromInt(ts.bonded)).LT(q) {
+		return false
+	}
+	if total.Sub(abst).IsZero() {
+		return false
+	}
+	if sdkmath.LegacyNewDecFromInt(veto).Quo(sdkmath.LegacyNewDecFromInt(total)).GT(ts.vetoThr) {
+		return false
+	}
+	thr := ts.thr
+	if ts.expedite {
+		thr = ts.expThr
+	}
+	return sdkmath.LegacyNewDecFromInt(yes).Quo(sdkmath.LegacyNewDecFromInt(total.Sub(abst))).GT(thr)
+}
+
+func (ts tallySpec) pct() sdkmath.LegacyDec {
+	if ts.bonded.IsZero() {
+		return sdkmath.LegacyZeroDec()
+	}
+	return sdkmath.LegacyNewDecFromInt(ts.yes.Add(ts.no).Add(ts.abst).Add(ts.veto)).Quo(sdkmath.LegacyNewDecFromInt(ts.bonded))
+}
+
+// verdict: (passes, conclusive)
+func (ts tallySpec) verdict(q sdkmath.LegacyDec) (bool, bool) {
+	base := ts.passes(q, [4]int64{})
+	for _, d := range [][4]int64{{1, 0, 0, 0}, {0, 1, 0, 0}, {0, 0, 1, 0}, {0, 0, 0, 1}, {1, 1, 1, 1}} {
+		if ts.passes(q, d) != base {
+			return base, false
+		}
+	}
+	return base, true
 }
 
 // monitor compares the state before and after one op with the property, stated directly.
@@ -412,6 +578,63 @@ func (h *H) monitor(op string, before, after snap, paidWho int, paid int64, spec
 	for pid, p := range after.props {
 		if open(p.status) && !after.depsAll[pid].AmountOf(denom).Equal(p.total) {
 			out.Violate(fmt.Sprintf("proposal %d total deposit %s differs from the sum of its deposit records %s", pid, p.total, after.depsAll[pid]))
+		}
+	}
+	for pid, n := range after.votes {
+		if p, ok := after.props[pid]; n > 0 && (!ok || p.status != "voting") {
+			out.Violate(fmt.Sprintf("%d votes are stored for proposal %d which is not in its voting period (status %q)", n, pid, p.status))
+		}
+	}
+	// (1c) queue consistency on the real state: the inactive queue holds exactly the (deposit end, id) of the proposals in
+	// their deposit period, the active queue exactly the (voting end, id) of those in their voting period
+	{
+		wantI, wantA := map[string]bool{}, map[string]bool{}
+		for pid, p := range after.props {
+			if p.status == "deposit" {
+				wantI[fmt.Sprintf("%s/%d", h.rel(p.dEnd), pid)] = true
+			}
+			if p.status == "voting" {
+				wantA[fmt.Sprintf("%s/%d", h.rel(p.vEnd), pid)] = true
+			}
+		}
+		chk := func(name string, got []string, want map[string]bool) {
+			seen := map[string]bool{}
+			for _, e := range got {
+				if !want[e] {
+					out.Violate(fmt.Sprintf("%s queue has the entry %s but no proposal in that period with that end time", name, e))
+				}
+				seen[e] = true
+			}
+			for e := range want {
+				if !seen[e] {
+					out.Violate(fmt.Sprintf("a proposal is open with end/id %s but the %s queue has no such entry (it would never end)", e, name))
+				}
+			}
+		}
+		chk("inactive", after.inactive, wantI)
+		chk("active", after.active, wantA)
+	}
+	// (1d) the end-blocker of a block ends every period whose end is at or before the block's time
+	if f := strings.Fields(op); f[0] == "endblock" {
+		for pid, p := range after.props {
+			bp, existed := before.props[pid]
+			if !existed {
+				continue
+			}
+			if bp.status == "deposit" && !bp.dEnd.After(before.now) && p.status == "deposit" {
+				out.Violate(fmt.Sprintf("proposal %d: deposit period ended at %s, block time %s, but it is still in its deposit period", pid, h.rel(bp.dEnd), h.rel(&before.now)))
+			}
+			if bp.status == "voting" && !bp.vEnd.After(before.now) && p.status == "voting" && p.vEnd.Equal(*bp.vEnd) && bp.exp == p.exp {
+				out.Violate(fmt.Sprintf("proposal %d: voting period ended at %s, block time %s, but it was not tallied", pid, h.rel(bp.vEnd), h.rel(&before.now)))
+			}
+			if open(bp.status) && !open(p.status) && ((bp.status == "deposit" && bp.dEnd.After(before.now)) || (bp.status == "voting" && bp.vEnd.After(before.now))) {
+				out.Violate(fmt.Sprintf("proposal %d ended (%s) before the end of its %s period", pid, p.status, bp.status))
+			}
+		}
+		for pid, bp := range before.props {
+			if _, still := after.props[pid]; !still && !(bp.status == "deposit" && !bp.dEnd.After(before.now)) {
+				out.Violate(fmt.Sprintf("proposal %d (%s) was deleted by the end-blocker although its deposit period had not ended", pid, bp.status))
+			}
 		}
 	}
 	// (2) each deposit that disappears left the module exactly once, towards its depositor or out of supply
@@ -540,15 +763,46 @@ func (h *H) monitor(op string, before, after snap, paidWho int, paid int64, spec
 			continue
 		}
 		q := specQuorum(before, ts.urls)
-		want := !ts.bondedZero && !ts.pct.LT(q) && !ts.naz && !ts.veto && ((bp.exp && ts.yesExp) || (!bp.exp && ts.yesReg))
+		ts.expedite = bp.exp
+		want, conclusive := ts.verdict(q)
 		got := ap.status == "passed" || ap.status == "failed"
-		if want != got && !churnInBlock {
-			out.Violate(fmt.Sprintf("tally outcome passes=%v but with the quorum configured for the message type (%s, turnout %s) it is %v", got, q, ts.pct, want))
+		if !conclusive {
+			out.Count("tally-monitor-inconclusive(at a boundary)")
+		} else if want != got && !churnInBlock {
+			out.Violate(fmt.Sprintf("tally outcome passes=%v but with the quorum configured for the message type (%s, turnout %s) it is %v", got, q, ts.pct(), want))
 		}
 		out.Count("tally:" + ap.status)
+		if bp.exp && ap.status == "voting" {
+			out.Count("tally:expedited-failed")
+		}
 		gq := sdkmath.LegacyMustNewDecFromStr(before.params.Quorum)
-		if !gq.Equal(q) && (ts.pct.LT(q) != ts.pct.LT(gq)) {
+		if !gq.Equal(q) && (ts.pct().LT(q) != ts.pct().LT(gq)) {
 			out.Nontrivial("tally-decided-by-type-quorum:" + ap.status)
+		}
+		// the per-option counts are those the votes and the stakes give (each staked token once)
+		if f := strings.Split(ap.tally, "/"); len(f) == 4 && ts.want[0] != nil {
+			out.Count("tally:counts-compared-with-stakes")
+			for i, name := range []string{"yes", "abstain", "no", "no_with_veto"} {
+				got, _ := new(big.Int).SetString(f[i], 10)
+				want := new(big.Int).Quo(ts.want[i].Num(), ts.want[i].Denom())
+				if d := new(big.Int).Sub(got, want); got != nil && d.CmpAbs(big.NewInt(1)) > 0 {
+					out.Violate(fmt.Sprintf("tally counted %s for %s, the votes and the stakes give %s (difference %s: voting power counted twice, or not at all)", got, name, want, d))
+				}
+			}
+			tot := new(big.Rat)
+			for i := range ts.want {
+				tot.Add(tot, ts.want[i])
+			}
+			if tot.Cmp(new(big.Rat).SetInt(ts.bonded.BigInt())) > 0 {
+				out.Violate(fmt.Sprintf("more voting power (%s) than bonded tokens (%s)", tot.FloatString(0), ts.bonded))
+			}
+		}
+		// the counted votes are gone (a converted expedited proposal starts its regular period without votes)
+		if after.votes[ts.pid] != 0 {
+			out.Violate(fmt.Sprintf("proposal %d was tallied but %d of its votes are still stored", ts.pid, after.votes[ts.pid]))
+		}
+		if before.votes[ts.pid] > 0 {
+			out.Count("tally:with-votes")
 		}
 	}
 	// (5) single type
@@ -571,6 +825,63 @@ func (h *H) monitor(op string, before, after snap, paidWho int, paid int64, spec
 		out.Count("exec-failed-alone")
 		if before.cells != after.cells || fmt.Sprint(before.custom) != fmt.Sprint(after.custom) {
 			out.Violate("a proposal whose message failed left writes of its earlier messages")
+		}
+	}
+	// (6b) all together or not at all, stated directly for the proposal executed alone in this block: it is PASSED iff
+	// every one of its messages succeeds when run in order (dry run on the state before the block), then every effect is
+	// there; otherwise it is FAILED and no effect is there
+	if nExec == 1 {
+		for _, ts := range specs {
+			ap, ok := after.props[ts.pid]
+			bp := before.props[ts.pid]
+			if !ok || bp.status != "voting" || (ap.status != "passed" && ap.status != "failed") {
+				continue
+			}
+			pos := "only"
+			switch {
+			case ts.execOK:
+				pos = "none"
+			case ts.nMsgs > 1 && ts.failIdx == 0:
+				pos = "first"
+			case ts.nMsgs > 1 && ts.failIdx == ts.nMsgs-1:
+				pos = "last"
+			case ts.nMsgs > 1:
+				pos = "middle"
+			}
+			out.Count(fmt.Sprintf("exec:%s:fails-at-%s-of-%d:%s", ap.status, pos, ts.nMsgs, ts.failWhy))
+			if ap.status == "passed" && !ts.execOK {
+				out.Violate(fmt.Sprintf("proposal with %d messages is PASSED although its message %d fails when executed (%s; fails at: %s): the messages did not take effect all together or not at all", ts.nMsgs, ts.failIdx+1, ts.failWhy, pos))
+			}
+			if ap.status == "failed" && ts.execOK {
+				out.Violate(fmt.Sprintf("proposal with %d messages is FAILED although every message succeeds when executed in order", ts.nMsgs))
+			}
+			// expected effects
+			cells, changedCustom := before.cells, false
+			for _, m := range h.props[ts.pid] {
+				f := strings.Split(m.act, ",")
+				switch f[0] {
+				case "cas":
+					var k, nw int
+					fmt.Sscan(f[1], &k)
+					fmt.Sscan(f[3], &nw)
+					cells[k] = nw
+				case "setc", "delc":
+					changedCustom = true
+				}
+			}
+			if ap.status == "passed" && ts.execOK {
+				if cells != after.cells {
+					out.Violate(fmt.Sprintf("passed proposal: store cells are %v, expected %v after all its messages", after.cells, cells))
+				}
+			}
+			if ap.status == "failed" {
+				for i := range h.accs {
+					if after.bal[i].GT(before.bal[i]) && !strings.HasPrefix(op, "mint ") && perWho[i].IsNil() {
+						out.Violate(fmt.Sprintf("failed proposal: account %d was credited %s by one of its messages", i, after.bal[i].Sub(before.bal[i])))
+					}
+				}
+			}
+			_ = changedCustom
 		}
 	}
 }
@@ -610,6 +921,7 @@ type mparams struct {
 	quorum, minInit, minDepRatio, cancel *big.Int
 	cancelDest                           int
 	burnPrevote, burnQuorum, burnVeto    bool
+	thr, expThr, vetoThr                 *big.Int
 }
 
 func (h *H) opParams(m mparams) {
@@ -632,9 +944,10 @@ func (h *H) opParams(m mparams) {
 		p.ProposalCancelDest = h.accs[m.cancelDest-2].String()
 	}
 	p.BurnProposalDepositPrevote, p.BurnVoteQuorum, p.BurnVoteVeto = m.burnPrevote, m.burnQuorum, m.burnVeto
+	p.Threshold, p.ExpeditedThreshold, p.VetoThreshold = decStr(m.thr), decStr(m.expThr), decStr(m.vetoThr)
 	err := h.deliver(&v1.MsgUpdateParams{Authority: h.gov, Params: p})
-	op := fmt.Sprintf("params %d %d %d %d %d %s %s %s %s %d %s %s %s", m.minDep, m.expMin, m.maxDepP, m.vp, m.expVp, m.quorum,
-		m.minInit, m.minDepRatio, m.cancel, m.cancelDest, b01(m.burnPrevote), b01(m.burnQuorum), b01(m.burnVeto))
+	op := fmt.Sprintf("params %d %d %d %d %d %s %s %s %s %d %s %s %s %s %s %s", m.minDep, m.expMin, m.maxDepP, m.vp, m.expVp, m.quorum,
+		m.minInit, m.minDepRatio, m.cancel, m.cancelDest, b01(m.burnPrevote), b01(m.burnQuorum), b01(m.burnVeto), m.thr, m.expThr, m.vetoThr)
 	if err != nil {
 		err = fmt.Errorf("params")
 		h.out.Emit(op, "err:params "+h.observe().line)
@@ -696,27 +1009,105 @@ func (h *H) opCancel(pid uint64, who int) {
 
 var optName = map[string]v1.VoteOption{"yes": v1.OptionYes, "no": v1.OptionNo, "abstain": v1.OptionAbstain, "veto": v1.OptionNoWithVeto}
 
-func (h *H) opVote(pid uint64, val int, opt string) {
+type wopt struct {
+	opt string
+	w   *big.Int // ·10^18
+}
+
+func one(opt string) []wopt { return []wopt{{opt, new(big.Int).Set(dec18)}} }
+
+func (h *H) voterAddr(i int) sdk.AccAddress {
+	if i >= 100 {
+		return h.vals[i-100]
+	}
+	return h.accs[i]
+}
+
+// opVote: a single full-weight option goes through MsgVote or MsgVoteWeighted, anything else through MsgVoteWeighted
+func (h *H) opVote(pid uint64, voter int, opts []wopt) {
 	before := h.observe()
 	var msg sdk.Msg
-	if o, ok := optName[opt]; ok {
-		msg = v1.NewMsgVote(h.vals[val], pid, o, "")
-	} else { // split: 0.7 yes / 0.3 no
-		msg = v1.NewMsgVoteWeighted(h.vals[val], pid, v1.WeightedVoteOptions{
-			{Option: v1.OptionYes, Weight: "0.7"}, {Option: v1.OptionNo, Weight: "0.3"}}, "")
+	var words []string
+	for _, o := range opts {
+		words = append(words, o.opt+":"+o.w.String())
+	}
+	if len(opts) == 1 && opts[0].w.Cmp(dec18) == 0 && h.rng.Intn(2) == 0 {
+		msg = v1.NewMsgVote(h.voterAddr(voter), pid, optName[opts[0].opt], "")
+	} else {
+		var ws v1.WeightedVoteOptions
+		for _, o := range opts {
+			ws = append(ws, &v1.WeightedVoteOption{Option: optName[o.opt], Weight: decStr(o.w)})
+		}
+		msg = v1.NewMsgVoteWeighted(h.voterAddr(voter), pid, ws, "")
 	}
 	err := h.deliver(msg)
-	h.emit(fmt.Sprintf("vote %d %d %s", pid, val, opt), before, err, -1, 0, nil)
+	h.emit(fmt.Sprintf("vote %d %d %s", pid, voter, strings.Join(words, ",")), before, err, -1, 0, nil)
+}
+
+// opDelegate: a tracked account delegates to validator `val` through the real MsgDelegate
+func (h *H) opDelegate(who, val int, n sdkmath.Int) {
+	before := h.observe()
+	msg := stakingtypes.NewMsgDelegate(h.accs[who].String(), sdk.ValAddress(h.vals[val]).String(), sdk.NewCoin(denom, n))
+	err := h.deliver(msg)
+	op := fmt.Sprintf("delegate %d %d %s", who, 100+val, n)
+	after := h.observe()
+	h.out.Emit(op, kind(err)+" "+after.line)
+	h.out.Count("delegate:" + strings.SplitN(kind(err), ":other", 2)[0])
+	h.monitorBalanceOnly(before, after)
+}
+
+// a delegation moves nothing of gov's
+func (h *H) monitorBalanceOnly(before, after snap) {
+	if !before.govAll.Equal(after.govAll) {
+		h.out.Violate(fmt.Sprintf("gov module balance changed from %s to %s by a staking delegation", before.govAll, after.govAll))
+	}
+}
+
+// stakingWords: the numbers the real Tally reads in the end-blocker of the current block (gov's end-blocker runs before
+// staking's, so these are the values at the end of the block's transactions): total bonded, every bonded validator's
+// bonded tokens and delegator shares, every delegation of a possible voter.
+func (h *H) stakingWords() []string {
+	ctx := h.ctx()
+	sk := h.s.App.StakingKeeper
+	bonded, _ := sk.TotalBondedTokens(ctx)
+	words := []string{"b," + bonded.String()}
+	valIdx := func(valAddr string) int {
+		bz, err := sk.ValidatorAddressCodec().StringToBytes(valAddr)
+		if err != nil {
+			return 9998
+		}
+		if i, ok := h.voter[sdk.AccAddress(bz).String()]; ok {
+			return i
+		}
+		return 9998
+	}
+	_ = sk.IterateBondedValidatorsByPower(ctx, func(_ int64, v stakingtypes.ValidatorI) bool {
+		words = append(words, fmt.Sprintf("v,%d,%s,%s", valIdx(v.GetOperator()), v.GetBondedTokens(), v.GetDelegatorShares().BigInt()))
+		return false
+	})
+	var voters []int
+	for i := range h.accs {
+		voters = append(voters, i)
+	}
+	for i := range h.vals {
+		voters = append(voters, 100+i)
+	}
+	for _, w := range voters {
+		_ = sk.IterateDelegations(ctx, h.voterAddr(w), func(_ int64, d stakingtypes.DelegationI) bool {
+			words = append(words, fmt.Sprintf("d,%d,%d,%s", w, valIdx(d.GetValidatorAddr()), d.GetShares().BigInt()))
+			return false
+		})
+	}
+	return words
 }
 
 // tallies of the proposals the end-blocker of the current block will tally, from the real votes and the real staking
 // state (dry run of the real Tally on a discarded cache context gives the per-option power; turnout, veto and
 // threshold tests are recomputed here, the quorum is NOT taken from the implementation).
-func (h *H) dueTallies() ([]tallySpec, []string) {
+func (h *H) dueTallies() []tallySpec {
 	ctx := h.ctx()
 	k := h.s.App.GovKeeper
 	var specs []tallySpec
-	var words []string
 	rng := collections.NewPrefixUntilPairRange[time.Time, uint64](ctx.BlockTime())
 	_ = k.ActiveProposalsQueue.Walk(ctx, rng, func(key collections.Pair[time.Time, uint64], _ uint64) (bool, error) {
 		p, err := k.Proposals.Get(ctx, key.K2())
@@ -724,45 +1115,58 @@ func (h *H) dueTallies() ([]tallySpec, []string) {
 			return false, nil
 		}
 		cctx, _ := ctx.CacheContext()
-		_, _, res, err := k.Tally(cctx, p)
-		if err != nil {
+		var res v1.TallyResult
+		if r := hx.Try(func() error { var err error; _, _, res, err = k.Tally(cctx, p); return err }); r != "ok" {
+			// the real end-blocker will meet the same error or panic: reported there, with the block as failing input
+			h.out.Count("dry-run-tally:" + strings.SplitN(r, ":", 2)[0])
 			return false, nil
 		}
 		toInt := func(s string) sdkmath.Int { i, _ := sdkmath.NewIntFromString(s); return i }
-		yes, no, abst, veto := toInt(res.YesCount), toInt(res.NoCount), toInt(res.AbstainCount), toInt(res.NoWithVetoCount)
-		total := yes.Add(no).Add(abst).Add(veto)
 		bonded, _ := h.s.App.StakingKeeper.TotalBondedTokens(ctx)
-		ts := tallySpec{pid: key.K2(), expedite: p.Expedited}
+		params, _ := k.Params.Get(ctx)
+		ts := tallySpec{pid: key.K2(), expedite: p.Expedited, yes: toInt(res.YesCount), no: toInt(res.NoCount),
+			abst: toInt(res.AbstainCount), veto: toInt(res.NoWithVetoCount), bonded: bonded,
+			thr: sdkmath.LegacyMustNewDecFromStr(params.Threshold), expThr: sdkmath.LegacyMustNewDecFromStr(params.ExpeditedThreshold),
+			vetoThr: sdkmath.LegacyMustNewDecFromStr(params.VetoThreshold)}
 		for _, m := range p.Messages {
 			ts.urls = append(ts.urls, m.TypeUrl)
 		}
-		params, _ := k.Params.Get(ctx)
-		if bonded.IsZero() {
-			ts.bondedZero = true
-			ts.pct = sdkmath.LegacyZeroDec()
+		ts.want = h.specCounts(ctx, key.K2())
+		ts.execOK, ts.failIdx = true, -1
+		if msgs, err := p.GetMsgs(); err != nil {
+			ts.execOK, ts.failWhy = false, "unpack"
 		} else {
-			ts.pct = sdkmath.LegacyNewDecFromInt(total).Quo(sdkmath.LegacyNewDecFromInt(bonded))
-			ts.naz = total.Sub(abst).IsZero()
-			if !total.IsZero() {
-				ts.veto = sdkmath.LegacyNewDecFromInt(veto).Quo(sdkmath.LegacyNewDecFromInt(total)).GT(sdkmath.LegacyMustNewDecFromStr(params.VetoThreshold))
-			}
-			if !ts.naz {
-				y := sdkmath.LegacyNewDecFromInt(yes).Quo(sdkmath.LegacyNewDecFromInt(total.Sub(abst)))
-				ts.yesReg = y.GT(sdkmath.LegacyMustNewDecFromStr(params.Threshold))
-				ts.yesExp = y.GT(sdkmath.LegacyMustNewDecFromStr(params.ExpeditedThreshold))
+			ts.nMsgs = len(msgs)
+			ectx, _ := ctx.CacheContext()
+			for i, m := range msgs {
+				m := m
+				res := hx.Try(func() error {
+					hd := h.s.App.MsgServiceRouter().Handler(m)
+					if hd == nil {
+						return fmt.Errorf("unroutable")
+					}
+					_, err := hd(ectx, m)
+					return err
+				})
+				if res != "ok" {
+					ts.execOK, ts.failIdx, ts.failWhy = false, i, "error"
+					if strings.HasPrefix(res, "panic:") {
+						ts.failWhy = "panic"
+					}
+					break
+				}
 			}
 		}
 		specs = append(specs, ts)
-		words = append(words, fmt.Sprintf("%d,%s,%s,%s,%s,%s,%s", ts.pid, b01(ts.bondedZero), ts.pct.BigInt(), b01(ts.naz), b01(ts.veto), b01(ts.yesReg), b01(ts.yesExp)))
 		return false, nil
 	})
-	return specs, words
+	return specs
 }
 
 func (h *H) opEndBlock(dt int64) {
 	before := h.observe()
-	specs, words := h.dueTallies()
-	op := strings.TrimSpace(fmt.Sprintf("endblock %d %s", dt, strings.Join(words, " ")))
+	specs := h.dueTallies()
+	op := strings.TrimSpace(fmt.Sprintf("endblock %d %s", dt, strings.Join(h.stakingWords(), " ")))
 	var err error
 	res := hx.Try(func() error { err = h.commitAt(h.ctx().BlockTime().Add(time.Duration(dt) * time.Second)); return nil })
 	if res != "ok" || err != nil {
@@ -847,6 +1251,21 @@ func (h *H) msgToggle(exists bool) pmsg {
 	return pmsg{url: sdk.MsgTypeURL(m), wf: true, ok: err == nil, act: "noop", real: m, creditTo: -1}
 }
 
+// msgLegacy: a v1beta1 text proposal wrapped in MsgExecLegacyContent.  The proposal's message — and hence its message type —
+// is the MsgExecLegacyContent; the wrapped content has a type url of its own.
+func (h *H) msgLegacy(wf bool) pmsg {
+	auth := h.gov
+	if !wf {
+		auth = h.accs[0].String()
+	}
+	content := v1beta1.NewTextProposal("t", "d")
+	m, err := v1.NewLegacyContent(content, auth)
+	if err != nil {
+		h.t.Fatalf("NewLegacyContent: %v", err)
+	}
+	return pmsg{url: sdk.MsgTypeURL(m), inner: m.Content.TypeUrl, wf: wf, ok: true, act: "noop", real: m, creditTo: -1}
+}
+
 func (h *H) msgErc20Params() pmsg {
 	m := &erc20types.MsgUpdateParams{Authority: h.gov, Params: erc20types.DefaultParams()}
 	return pmsg{url: sdk.MsgTypeURL(m), wf: true, ok: true, act: "noop", real: m, creditTo: -1}
@@ -858,13 +1277,19 @@ func newH(t *testing.T, out *hx.Out, rng *rand.Rand, nVal, nAcc int) *H {
 	s := hx.NewSuite(t, nVal)
 	h := &H{t: t, s: s, out: out, rng: rng, gov: authtypes.NewModuleAddress(govtypes.ModuleName).String(),
 		idx: map[string]int{}, props: map[uint64][]pmsg{}, votes: map[uint64]map[int]bool{}}
-	for _, v := range s.ValAddr {
+	h.voter = map[string]int{}
+	for i, v := range s.ValAddr {
 		h.vals = append(h.vals, sdk.AccAddress(v))
+		h.voter[sdk.AccAddress(v).String()] = 100 + i
 	}
 	for i := 0; i < nAcc; i++ {
 		a := helpers.GenAccAddress()
 		h.accs = append(h.accs, a)
 		h.idx[a.String()] = i
+		h.voter[a.String()] = i
+	}
+	if v, err := s.App.StakingKeeper.GetValidator(s.Ctx, s.ValAddr[0]); err == nil {
+		h.bond = v.GetTokens()
 	}
 	// community pool: plenty of both denoms, from a funder outside the tracked accounts
 	funder := helpers.GenAccAddress()
@@ -882,6 +1307,7 @@ func newH(t *testing.T, out *hx.Out, rng *rand.Rand, nVal, nAcc int) *H {
 		sdk.MsgTypeURL(&distrtypes.MsgCommunityPoolSpend{}), sdk.MsgTypeURL(&fxgovtypes.MsgUpdateStore{}),
 		sdk.MsgTypeURL(&fxgovtypes.MsgUpdateCustomParams{}), sdk.MsgTypeURL(&erc20types.MsgToggleTokenConversion{}),
 		sdk.MsgTypeURL(&erc20types.MsgUpdateParams{}),
+		sdk.MsgTypeURL(&v1.MsgExecLegacyContent{}), "/" + proto.MessageName(&v1beta1.TextProposal{}),
 	}
 	return h
 }
@@ -922,7 +1348,8 @@ func (h *H) start(facts map[string]json.RawMessage) {
 
 func defaultParams() mparams {
 	return mparams{minDep: 1000, expMin: 5000, maxDepP: 40, vp: 60, expVp: 20, quorum: frac(4, 10), minInit: big.NewInt(0),
-		minDepRatio: big.NewInt(0), cancel: frac(1, 2), cancelDest: 0, burnVeto: true}
+		minDepRatio: big.NewInt(0), cancel: frac(1, 2), cancelDest: 0, burnVeto: true,
+		thr: frac(1, 2), expThr: frac(667, 1000), vetoThr: frac(334, 1000)}
 }
 
 // ------------------------------------------------------------------------------------------------- directed scenarios
@@ -938,7 +1365,7 @@ func (h *H) scenarioExpedited(customPeriod int64) {
 	h.opCustom(url, false, big.NewInt(0), customPeriod, frac(25, 100))
 	h.opSubmit(0, true, 5000, []pmsg{h.msgToggle(true)})
 	for v := range h.vals {
-		h.opVote(1, v, "no")
+		h.opVote(1, 100+v, one("no"))
 	}
 	h.opEndBlock(customPeriod)
 	h.opEndBlock(1) // expedited tally fails here: converted
@@ -978,9 +1405,104 @@ func (h *H) scenarioEGF() {
 	h.opEndBlock(1)
 }
 
+// scenario Legacy: custom parameters configured for the MsgExecLegacyContent type url and, separately, for the type url
+// of the wrapped content; a legacy text proposal (regular and expedited) must get the period and quorum of ITS message
+// type, the wrapper's.
+func (h *H) scenarioLegacy() {
+	h.opParams(defaultParams())
+	for i := range h.accs {
+		h.opMint(i, 1_000_000)
+	}
+	outer := sdk.MsgTypeURL(&v1.MsgExecLegacyContent{})
+	inner := "/" + proto.MessageName(&v1beta1.TextProposal{})
+	h.opCustom(outer, false, big.NewInt(0), 25, frac(3, 4))
+	h.opCustom(inner, false, big.NewInt(0), 45, frac(1, 4))
+	h.opSubmit(0, false, 1000, []pmsg{h.msgLegacy(true)})
+	h.opSubmit(1, true, 5000, []pmsg{h.msgLegacy(true), h.msgLegacy(true)})
+	h.opSubmit(2, false, 1000, []pmsg{h.msgLegacy(false)})
+	// two of three validators: turnout 2/3 is below the wrapper's quorum 3/4 and above the content's 1/4
+	for _, pid := range []uint64{1, 2} {
+		h.opVote(pid, 100, one("yes"))
+		h.opVote(pid, 101, one("yes"))
+	}
+	h.opEndBlock(25)
+	h.opEndBlock(1)
+	h.opCustom(outer, true, nil, 0, nil)
+	h.opVote(2, 100, one("yes"))
+	h.opVote(2, 101, one("yes"))
+	h.opEndBlock(34)
+	h.opEndBlock(1)
+}
+
+// scenario Tally: the decision sequence at its boundaries with four equal validators (bond B each), delegators that
+// override their validator, a silent validator whose delegator votes, weighted votes, a slashed validator (quotients
+// round), an expedited proposal that fails and is tallied again without its old votes.
+func (h *H) scenarioTally(slash bool) {
+	m := defaultParams()
+	m.quorum, m.vetoThr = frac(1, 2), frac(1, 4)
+	h.opParams(m)
+	for i := range h.accs {
+		h.opMint(i, 1_000_000)
+	}
+	if slash {
+		h.slash(3, sdkmath.LegacyNewDecWithPrec(333333333333333333, 18))
+	}
+	h.stake(0, 0, h.bond)            // validator 0: 2B, half of it account 0's
+	h.stake(1, 3, h.bond.QuoRaw(3))  // validator 3 (slashed or not): fractional shares
+	tog := func() []pmsg { return []pmsg{h.msgToggle(true)} }
+	for i := 0; i < 7; i++ {
+		h.opSubmit(i%4, false, 1000, tog())
+	}
+	h.opSubmit(0, true, 5000, tog()) // 8: expedited
+	// 1: turnout exactly the quorum (validators 1 and 2 of 5B+B/3… bonded) is not exact any more: use yes share instead
+	// 1: yes share exactly the threshold 1/2 -> rejected (GT)
+	h.opVote(1, 101, one("yes"))
+	h.opVote(1, 102, one("no"))
+	// 2: veto share exactly the veto threshold 1/4 -> not vetoed, passes
+	h.opVote(2, 101, one("veto"))
+	h.opVote(2, 102, one("yes"))
+	h.opVote(2, 100, one("yes")) // 2B, of which B is overridden below
+	h.opVote(2, 0, one("yes"))
+	// 3: everyone abstains -> rejected, no burn; division by the non-abstaining power must not be reached
+	h.opVote(3, 101, one("abstain"))
+	h.opVote(3, 102, one("abstain"))
+	h.opVote(3, 100, one("abstain"))
+	// 4: the delegator overrides its validator: validator 0 yes (B left), account 0 no (B), validator 1 no
+	h.opVote(4, 100, one("yes"))
+	h.opVote(4, 0, one("no"))
+	h.opVote(4, 101, []wopt{{"yes", third}, {"abstain", twoThirds}})
+	// 5: a silent validator whose delegator votes: only the delegator's part counts; below the quorum
+	h.opVote(5, 1, one("yes"))
+	// 6: weighted votes on the slashed validator and its delegator
+	h.opVote(6, 103, []wopt{{"yes", third}, {"no", twoThirds}})
+	h.opVote(6, 1, []wopt{{"abstain", restDust}, {"yes", dust}})
+	h.opVote(6, 101, one("yes"))
+	h.opVote(6, 102, []wopt{{"yes", frac(7, 10)}, {"no", frac(3, 10)}})
+	// 7: a vote that is replaced
+	h.opVote(7, 101, one("no"))
+	h.opVote(7, 101, one("yes"))
+	h.opVote(7, 102, one("yes"))
+	h.opVote(7, 100, one("yes"))
+	// 8: expedited: yes share 3/5+… below 2/3 -> converted, votes gone; second tally without votes fails the quorum
+	h.opVote(8, 100, one("yes"))
+	h.opVote(8, 101, one("yes"))
+	h.opVote(8, 102, one("no"))
+	h.opVote(8, 103, one("no"))
+	// malformed votes
+	h.opVote(7, 103, []wopt{{"yes", frac(1, 2)}, {"yes", frac(1, 2)}})
+	h.opVote(7, 103, []wopt{{"yes", frac(6, 10)}, {"no", frac(3, 10)}})
+	h.opVote(99, 103, one("yes"))
+	h.opEndBlock(20)
+	h.opEndBlock(1) // expedited tally
+	h.opVote(8, 103, one("yes")) // the converted proposal can be voted on again
+	h.opEndBlock(39)
+	h.opEndBlock(1) // regular tallies
+	h.opEndBlock(1)
+}
+
 // ------------------------------------------------------------------------------------------------- random sequences
 
-func (h *H) randomParams() mparams {
+func (h *H) randomParams(allowInvalid bool) mparams {
 	r := h.rng
 	m := defaultParams()
 	m.minDep = hx.Pick(r, []int64{1000, 2000, 1})
@@ -994,6 +1516,19 @@ func (h *H) randomParams() mparams {
 	m.cancel = hx.Pick(r, []*big.Int{big.NewInt(0), frac(1, 2), frac(1, 1), frac(1, 3)})
 	m.cancelDest = r.Intn(2 + len(h.accs))
 	m.burnPrevote, m.burnQuorum, m.burnVeto = r.Intn(3) == 0, r.Intn(2) == 0, r.Intn(2) == 0
+	// thresholds on the fractions that k of n equal validators produce, and the usual ones
+	switch r.Intn(4) {
+	case 0:
+		m.thr, m.expThr = frac(1, 3), frac(1, 2)
+	case 1:
+		m.thr, m.expThr = frac(1, 2), frac(2, 3) // 0.666666666666666666
+	case 2:
+		m.thr, m.expThr = frac(1, 2), frac(3, 4)
+	}
+	m.vetoThr = hx.Pick(r, []*big.Int{frac(334, 1000), frac(1, 3), frac(1, 2), frac(1, 4)})
+	if allowInvalid && r.Intn(8) == 0 {
+		m.expThr = m.thr // invalid: rejected by ValidateBasic
+	}
 	return m
 }
 
@@ -1001,7 +1536,10 @@ func (h *H) randomCustom() (remove bool, ratio *big.Int, period int64, q *big.In
 	r := h.rng
 	nv := int64(len(h.vals))
 	k := int64(r.Intn(int(nv) + 1))
-	q = frac(k, nv) // exactly the turnout of k validators…
+	q = frac(k, nv) // exactly the turnout of k equal validators…
+	if r.Intn(2) == 0 {
+		q = h.quorumAt(r.Intn(int(nv)), int(k)) // …or of k of the validators as they are now (after delegations, slashes)
+	}
 	switch r.Intn(4) {
 	case 0:
 		q = new(big.Int).Add(q, big.NewInt(1)) // …or one unit above
@@ -1017,6 +1555,105 @@ func (h *H) randomCustom() (remove bool, ratio *big.Int, period int64, q *big.In
 		hx.Pick(r, []int64{5, 10, 25, 45, 70}), q
 }
 
+var (
+	third     = frac(1, 3)                                  // 0.333333333333333333
+	twoThirds = new(big.Int).Sub(dec18, frac(1, 3))         // 0.666666666666666667
+	dust      = big.NewInt(1)                               // 10^-18
+	restDust  = new(big.Int).Sub(dec18, big.NewInt(1))
+)
+
+// randomOpts: mostly valid (single options, splits whose weights force the LegacyDec roundings), some malformed
+func (h *H) randomOpts() []wopt {
+	r := h.rng
+	switch r.Intn(16) {
+	case 0, 1, 2, 3, 4, 5:
+		return one("yes")
+	case 6:
+		return one("no")
+	case 7:
+		return one("abstain")
+	case 8:
+		return one("veto")
+	case 9:
+		return []wopt{{"yes", frac(7, 10)}, {"no", frac(3, 10)}}
+	case 10:
+		return []wopt{{"yes", third}, {"abstain", twoThirds}}
+	case 11:
+		return []wopt{{"veto", frac(1, 2)}, {"yes", frac(1, 2)}}
+	case 12:
+		return []wopt{{"yes", frac(1, 4)}, {"no", frac(1, 4)}, {"abstain", frac(1, 4)}, {"veto", frac(1, 4)}}
+	case 13:
+		return []wopt{{"abstain", restDust}, {"yes", dust}}
+	case 14:
+		return []wopt{{"no", twoThirds}, {"yes", third}}
+	}
+	switch r.Intn(4) { // malformed
+	case 0:
+		return []wopt{{"yes", frac(1, 2)}, {"yes", frac(1, 2)}}
+	case 1:
+		return []wopt{{"yes", frac(6, 10)}, {"no", frac(3, 10)}}
+	case 2:
+		return []wopt{{"yes", frac(6, 10)}, {"no", frac(5, 10)}}
+	}
+	return []wopt{{"yes", new(big.Int).Set(dec18)}, {"no", big.NewInt(0)}}
+}
+
+// slash: a validator loses a fraction of its tokens (its delegator shares stay), so that shares and tokens are no longer
+// one to one and the voting-power quotients round
+func (h *H) slash(val int, factor sdkmath.LegacyDec) {
+	ctx := h.ctx()
+	sk := h.s.App.StakingKeeper
+	v, err := sk.GetValidator(ctx, sdk.ValAddress(h.vals[val]))
+	if err != nil {
+		return
+	}
+	cons, err := v.GetConsAddr()
+	if err != nil {
+		return
+	}
+	if res := hx.Try(func() error {
+		_, err := sk.Slash(ctx, cons, ctx.BlockHeight(), v.GetConsensusPower(sk.PowerReduction(ctx)), factor)
+		return err
+	}); res == "ok" {
+		h.out.Count("env:slash")
+	}
+}
+
+// stake: account `who` gets `n` extra coins and delegates them to validator `val`
+func (h *H) stake(who, val int, n sdkmath.Int) {
+	if !n.IsPositive() || !n.IsInt64() && n.BigInt().BitLen() > 200 {
+		return
+	}
+	before := h.observe()
+	h.s.MintToken(h.accs[who], sdk.NewCoin(denom, n))
+	h.emit(fmt.Sprintf("mint %d %s", who, n), before, nil, -1, 0, nil)
+	h.opDelegate(who, val, n)
+}
+
+func (h *H) randomStakeAmount() sdkmath.Int {
+	r := h.rng
+	b := h.bond
+	return hx.Pick(r, []sdkmath.Int{b, b.QuoRaw(2), b.QuoRaw(3), b.QuoRaw(10), sdkmath.NewInt(1), sdkmath.NewInt(7), b.MulRaw(2), b.QuoRaw(3).AddRaw(1)})
+}
+
+// quorumAt: the turnout obtained when exactly the validators first..first+n-1 vote (their delegators inheriting), so
+// that a custom quorum can sit exactly on, one unit above or one unit below an attainable turnout
+func (h *H) quorumAt(first, n int) *big.Int {
+	ctx := h.ctx()
+	sk := h.s.App.StakingKeeper
+	bonded, _ := sk.TotalBondedTokens(ctx)
+	if bonded.IsZero() {
+		return big.NewInt(0)
+	}
+	sum := sdkmath.LegacyZeroDec()
+	for j := 0; j < n; j++ {
+		if v, err := sk.GetValidator(ctx, sdk.ValAddress(h.vals[(first+j)%len(h.vals)])); err == nil {
+			sum = sum.Add(v.GetDelegatorShares().MulInt(v.GetBondedTokens()).Quo(v.GetDelegatorShares()))
+		}
+	}
+	return sum.Quo(sdkmath.LegacyNewDecFromInt(bonded)).BigInt()
+}
+
 func (h *H) randomMsgs() []pmsg {
 	r := h.rng
 	n := 1 + r.Intn(3)
@@ -1024,7 +1661,11 @@ func (h *H) randomMsgs() []pmsg {
 		n = 0
 	}
 	var ms []pmsg
-	switch r.Intn(6) {
+	switch r.Intn(7) {
+	case 6: // legacy content: the message type is MsgExecLegacyContent, whatever it wraps
+		for i := 0; i < n; i++ {
+			ms = append(ms, h.msgLegacy(r.Intn(12) != 0))
+		}
 	case 0, 1: // community pool spend
 		for i := 0; i < n; i++ {
 			fx := hx.Pick(r, []int64{0, 3, 4, 5, 9990, 9995, 10000, 10005, 10015, 20000, 50000})
@@ -1096,9 +1737,26 @@ func (h *H) openIDs(sn snap, status string) []uint64 {
 
 func (h *H) randomSequence(nOps int) {
 	r := h.rng
-	h.opParams(h.randomParams())
+	h.opParams(h.randomParams(false))
 	for i := range h.accs {
 		h.opMint(i, hx.Pick(r, []int64{1_000_000, 1_000_000, 30_000, 2_000}))
+	}
+	// staking environment: sometimes a slashed validator (before and/or after the delegations), delegators
+	if r.Intn(3) == 0 {
+		h.slash(r.Intn(len(h.vals)), hx.Pick(r, []sdkmath.LegacyDec{sdkmath.LegacyNewDecWithPrec(333333333333333333, 18), sdkmath.LegacyNewDecWithPrec(7, 2), sdkmath.LegacyNewDecWithPrec(5, 1)}))
+	}
+	delegated := map[[2]int]bool{}
+	for i := range h.accs {
+		for k := r.Intn(3); k > 0; k-- {
+			val := r.Intn(len(h.vals))
+			if !delegated[[2]int{i, val}] {
+				delegated[[2]int{i, val}] = true
+				h.stake(i, val, h.randomStakeAmount())
+			}
+		}
+	}
+	if r.Intn(4) == 0 {
+		h.slash(r.Intn(len(h.vals)), hx.Pick(r, []sdkmath.LegacyDec{sdkmath.LegacyNewDecWithPrec(1, 1), sdkmath.LegacyNewDecWithPrec(333333333333333333, 18)}))
 	}
 	for i := 0; i < nOps && !h.halted; i++ {
 		sn := h.observe()
@@ -1136,11 +1794,17 @@ func (h *H) randomSequence(nOps int) {
 			if len(ids) > 0 && r.Intn(10) != 0 {
 				pid = hx.Pick(r, ids)
 			}
-			// a burst of votes: the number of voters decides the turnout, the options the outcome
+			// a burst of votes: the voters decide the turnout, the options the outcome; delegators that vote override
+			// the validator they delegated to for their part
 			nv := 1 + r.Intn(len(h.vals))
 			first := r.Intn(len(h.vals))
 			for j := 0; j < nv; j++ {
-				h.opVote(pid, (first+j)%len(h.vals), hx.Pick(r, []string{"yes", "yes", "yes", "yes", "yes", "no", "abstain", "veto", "split"}))
+				h.opVote(pid, 100+(first+j)%len(h.vals), h.randomOpts())
+			}
+			for a := range h.accs {
+				if r.Intn(3) == 0 {
+					h.opVote(pid, a, h.randomOpts())
+				}
 			}
 		case x < 82:
 			dt := hx.Pick(r, []int64{1, 2, 5, 10, 20, 30})
@@ -1162,11 +1826,21 @@ func (h *H) randomSequence(nOps int) {
 				}
 			}
 			h.opEndBlock(dt)
-		case x < 94:
+		case x < 92:
 			remove, ratio, period, q := h.randomCustom()
 			h.opCustom(hx.Pick(r, h.urls), remove, ratio, period, q)
+		case x < 94: // a new delegation while proposals are open (each pair at most once: a second one would pay out rewards)
+			who, val := r.Intn(len(h.accs)), r.Intn(len(h.vals))
+			if !delegated[[2]int{who, val}] {
+				delegated[[2]int{who, val}] = true
+				if r.Intn(6) == 0 {
+					h.opDelegate(who, val, sdkmath.NewInt(5_000_000)) // usually more than the account holds
+				} else {
+					h.stake(who, val, h.randomStakeAmount())
+				}
+			}
 		case x < 97:
-			h.opParams(h.randomParams())
+			h.opParams(h.randomParams(true))
 		default:
 			ids := h.openIDs(sn, "")
 			pid := uint64(1 + r.Intn(4))
@@ -1204,7 +1878,7 @@ func TestC15(t *testing.T) {
 	seed := hx.Seed()
 	rng := rand.New(rand.NewSource(seed))
 	out := hx.NewOut()
-	defer out.Close("correspondence: every op of directed scenarios (expedited->regular with a per-type period, EGF deposit rule boundaries incl. non-deposit denoms) and of random sequences (submit / deposit / vote / cancel / custom-parameter churn / parameter changes / blocks with the real EndBlocker) compared line by line with the Lean model; monitors on real state: module balance = Σ open deposits, settled exactly once, activation ⇒ minimum deposit, period and quorum by message type, single type, all-or-nothing execution, end-blocker never halts. non-trivial = distinct (op kind, result) and decisive tallies")
+	defer out.Close("correspondence: every op of directed scenarios (expedited->regular with a per-type period, EGF deposit rule boundaries incl. non-deposit denoms and sums over several spends, legacy-content proposals with custom parameters for the wrapper and for the wrapped content, the tally decision sequence at its boundaries with delegators overriding validators, weighted votes and a slashed validator) and of random sequences (submit / deposit / vote and weighted vote by validators and delegators / delegate / cancel / custom-parameter churn / parameter changes incl. thresholds / blocks with the real EndBlocker, slashed validators) compared line by line with the Lean model, which computes the tallies itself from the stored votes and the block's staking numbers; monitors on real state: module balance = Σ open deposits, settled exactly once, activation ⇒ minimum deposit (and the converse), period and quorum by message type, queue consistency, every period ends at its end time, per-option counts = what the votes and stakes give (each staked token once), counted votes removed, votes only for proposals in their voting period, single type, all-or-nothing execution stated directly (passed ⇔ every message succeeds in order; failure at first / middle / last message), end-blocker never halts. non-trivial = distinct (op kind, result) and decisive tallies")
 
 	facts := map[string]json.RawMessage{}
 	if fp := os.Getenv("VERIF_FACTS"); fp != "" {
@@ -1242,7 +1916,17 @@ func TestC15(t *testing.T) {
 		h.start(facts)
 		h.scenarioEGF()
 	}
-	nSeq := hx.N(120, 1500)
+	{
+		h := newH(t, out, rng, 3, 4)
+		h.start(facts)
+		h.scenarioLegacy()
+	}
+	for _, sl := range []bool{false, true} {
+		h := newH(t, out, rng, 4, 4)
+		h.start(facts)
+		h.scenarioTally(sl)
+	}
+	nSeq := hx.N(240, 1500)
 	for i := 0; i < nSeq; i++ {
 		h := newH(t, out, rng, 2+rng.Intn(4), 4)
 		h.start(facts)
